@@ -132,7 +132,7 @@ Qed.
 Lemma cc_rename_code_ok s p q d rest :
   cc_ok HW [] d (cc_rename_code s p q ++ rest) = cc_ok HW [] d rest.
 Proof.
-  unfold cc_rename_code. destruct (lookup s p) as [f|]; [|reflexivity].
+  unfold cc_rename_code. destruct (lookup s p) as [f|]; [|apply cc_ok_touches_h].
   apply cc_ok_holding. intros h' rest'.
   rewrite <- !app_assoc, cc_ok_touches_h, cc_ok_flat_map; [apply cc_ok_touches_h|].
   intros x rest2. destruct (filter _ _) as [|k kids]; [reflexivity|].
@@ -154,7 +154,7 @@ Lemma lockonly_flat_map {A} (g : A -> list cc_instr) l : (forall x, cc_lockonly 
 Proof. intros Hg. unfold cc_lockonly in *. induction l as [|x l IH]; [reflexivity|]. cbn [flat_map]. now rewrite forallb_app, Hg, IH. Qed.
 Lemma lockonly_rename_code s p q : cc_lockonly (cc_rename_code s p q) = true.
 Proof.
-  unfold cc_rename_code. destruct (lookup s p) as [f|]; [|reflexivity].
+  unfold cc_rename_code. destruct (lookup s p) as [f|]; [|apply lockonly_touches_h].
   apply lockonly_holding. intros h'. unfold cc_lockonly. rewrite !forallb_app.
   fold (cc_lockonly (cc_touches_h h' (f :: find_descendants s p))). rewrite lockonly_touches_h.
   fold (cc_lockonly (cc_touches_h h' (cc_node_at s (cc_parent_path q)))). rewrite lockonly_touches_h. rewrite andb_true_r. cbn [andb].
